@@ -89,6 +89,8 @@ const VERSIONS: [u32; 4] = [1, 2, 3, 1000];
 // connection level: writer side, handler results, handshake messages on the wire
 #[path = "../codec_ext.rs"]
 mod ext;
+#[path = "../codec_glue.rs"]
+mod glue;
 
 struct Ctx {
 	out: Out,
@@ -2898,6 +2900,7 @@ fn main() {
 		headers_inconsistent(&mut cx);
 		headers_excess(&mut cx);
 		ext::headers_short(&mut cx);
+		ext::limits_sweep(&mut cx);
 	}
 	if mode == "all" || mode == "handshake" {
 		handshakes(&mut cx);
@@ -2924,6 +2927,9 @@ fn main() {
 	}
 	if mode == "all" || mode == "hconn" {
 		ext::handler_results(&mut cx, &work);
+	}
+	if mode == "all" || mode == "glue" {
+		glue::glue(&mut cx, &work);
 	}
 	if mode == "all" || mode == "hsw" {
 		ext::handshake_wire(&mut cx);
